@@ -286,6 +286,12 @@ def argumentFn (s : PState) (k : TokKind) (text : Bytes) : FnResult :=
       else .ret false s false
   | _ => .ret false s false
 
+/-- `if self.__argument(ttype, tvalue): return self.__check_command_completion(testsemicolon=False)` -/
+def argThenCompl (s : PState) (k : TokKind) (text : Bytes) : FnResult :=
+  match argumentFn s k text with
+  | .ret true s' rew => complThen s' false rew
+  | r => r
+
 /-- `__arguments` -/
 def argumentsFn (T : Table) (s : PState) (k : TokKind) (text : Bytes) : FnResult :=
   match s.stack with
@@ -310,20 +316,14 @@ def argumentsFn (T : Table) (s : PState) (k : TokKind) (text : Bytes) : FnResult
         .ret true { s with brackets := .right_parenthesis :: s.brackets,
                            expected := some [.identifier] } false
       else
-        match argumentFn s k text with
-        | .ret true s' rew => complThen s' false rew
-        | r => r
+        argThenCompl s k text
     | .comma =>
       if f.d.variableArgs then .ret true { s with expected := some [.identifier] } false
       else
-        match argumentFn s k text with
-        | .ret true s' rew => complThen s' false rew
-        | r => r
+        argThenCompl s k text
     | .right_parenthesis =>
       if f.d.nonDet then
-        match argumentFn s k text with
-        | .ret true s' rew => complThen s' false rew
-        | r => r
+        argThenCompl s k text
       else
       match popBracket s k with
       | none => .err .closingBracket false
@@ -331,77 +331,84 @@ def argumentsFn (T : Table) (s : PState) (k : TokKind) (text : Bytes) : FnResult
         match up s1 with
         | .error w => .crash w
         | .ok s2 => .ret true s2 false
-    | _ =>
-      match argumentFn s k text with
-      | .ret true s' rew => complThen s' false rew
-      | r => r
+    | _ => argThenCompl s k text
 
 def lastName (l : List Node) : Option Bytes := (l.getLast?).map Node.name
+
+/-- `__command` when no command is being parsed: a closing brace or the name of a new command -/
+def startCommand (T : Table) (s : PState) (k : TokKind) (text : Bytes) : FnResult :=
+  if k == .right_cbracket then
+    match popBracket s k with
+    | none => .err .closingBracket false
+    | some s1 =>
+      match up s1 with
+      | .error w => .crash w
+      | .ok s2 => .ret true { s2 with cstate := .none } false
+  else if k != .identifier then .ret false s false
+  else
+    match getCommand T s.loaded text with
+    | .error e => .err e false
+    | .ok d =>
+      if d.kind == .test then .err (.firstCommandTest d.name) false else
+      let s1 := if d.kind == .control && d.acceptChildren && !d.args.isEmpty
+                then { s with expected := some [.identifier] } else s
+      let prev : Option Bytes :=
+        match s1.stack with
+        | [] => lastName s1.result
+        | f :: _ => lastName f.children
+      let followOk : Bool :=
+        match d.mustFollow with
+        | none => true
+        | some names => match prev with
+          | none => false
+          | some p => decide (p ∈ names)
+      if !followOk then .err (.mustFollow d.name) false else
+      match s1.stack with
+      | [] => .ret true { s1 with stack := [{ d := d, attach := .top }], cstate := .arguments } false
+      | f :: _ =>
+        if !f.d.acceptChildren then .err (.unexpectedAfter f.d.name) false
+        else .ret true { s1 with stack := { d := d, attach := .child } :: s1.stack,
+                                 cstate := .arguments } false
+
+/-- `__command` after the state function declined the token: `{` opens the block of a complete
+    control, `;` ends an action -/
+def closeCommand (s' : PState) (k : TokKind) (rew : Bool) : FnResult :=
+  match s'.stack with
+  | [] => .crash "AttributeError: NoneType"
+  | f :: _ =>
+    if k == .left_cbracket then
+      if f.d.kind == .control && f.d.acceptChildren && Frame.complete f then
+        .ret true { s' with brackets := .right_cbracket :: s'.brackets, cstate := .none } rew
+      else .ret false s' rew
+    else if k == .semicolon then
+      if f.d.kind == .test || f.d.acceptChildren then .ret false s' rew
+      else
+        match completion { s' with cstate := .none } false with
+        | .error e => ofCmdErr rew e
+        | .ok (false, s2) => .ret false s2 rew
+        | .ok (true, s2) =>
+          match s2.stack with
+          | [] => .crash "AttributeError: NoneType"
+          | g :: _ =>
+            let s3 := { s2 with loaded := completeCb g s2.loaded }
+            match up s3 with
+            | .error w => .crash w
+            | .ok s4 => .ret true s4 rew
+    else .ret false s' rew
+
+/-- the state function of the current state (`self.__cstate`) -/
+def stateFn (T : Table) (s : PState) (k : TokKind) (text : Bytes) : FnResult :=
+  match s.cstate with
+  | .stringlist => stringlistFn s k text
+  | _ => argumentsFn T s k text
 
 /-- `__command` -/
 def commandFn (T : Table) (s : PState) (k : TokKind) (text : Bytes) : FnResult :=
   match s.cstate with
-  | .none =>
-    if k == .right_cbracket then
-      match popBracket s k with
-      | none => .err .closingBracket false
-      | some s1 =>
-        match up s1 with
-        | .error w => .crash w
-        | .ok s2 => .ret true { s2 with cstate := .none } false
-    else if k != .identifier then .ret false s false
-    else
-      match getCommand T s.loaded text with
-      | .error e => .err e false
-      | .ok d =>
-        if d.kind == .test then .err (.firstCommandTest d.name) false else
-        let s1 := if d.kind == .control && d.acceptChildren && !d.args.isEmpty
-                  then { s with expected := some [.identifier] } else s
-        let prev : Option Bytes :=
-          match s1.stack with
-          | [] => lastName s1.result
-          | f :: _ => lastName f.children
-        let followOk : Bool :=
-          match d.mustFollow with
-          | none => true
-          | some names => match prev with
-            | none => false
-            | some p => decide (p ∈ names)
-        if !followOk then .err (.mustFollow d.name) false else
-        match s1.stack with
-        | [] => .ret true { s1 with stack := [{ d := d, attach := .top }], cstate := .arguments } false
-        | f :: _ =>
-          if !f.d.acceptChildren then .err (.unexpectedAfter f.d.name) false
-          else .ret true { s1 with stack := { d := d, attach := .child } :: s1.stack,
-                                   cstate := .arguments } false
-  | cs =>
-    let r := match cs with
-      | .stringlist => stringlistFn s k text
-      | _ => argumentsFn T s k text
-    match r with
-    | .ret false s' rew =>
-      match s'.stack with
-      | [] => .crash "AttributeError: NoneType"
-      | f :: _ =>
-        if k == .left_cbracket then
-          if f.d.kind == .control && f.d.acceptChildren && Frame.complete f then
-            .ret true { s' with brackets := .right_cbracket :: s'.brackets, cstate := .none } rew
-          else .ret false s' rew
-        else if k == .semicolon then
-          if f.d.kind == .test || f.d.acceptChildren then .ret false s' rew
-          else
-            match completion { s' with cstate := .none } false with
-            | .error e => ofCmdErr rew e
-            | .ok (false, s2) => .ret false s2 rew
-            | .ok (true, s2) =>
-              match s2.stack with
-              | [] => .crash "AttributeError: NoneType"
-              | g :: _ =>
-                let s3 := { s2 with loaded := completeCb g s2.loaded }
-                match up s3 with
-                | .error w => .crash w
-                | .ok s4 => .ret true s4 rew
-        else .ret false s' rew
+  | .none => startCommand T s k text
+  | _ =>
+    match stateFn T s k text with
+    | .ret false s' rew => closeCommand s' k rew
     | r => r
 
 /-- `bytes.strip()` -/
